@@ -27,7 +27,7 @@ RULE = (
     "different columns, axis 0 (order == pandas unless interleave_partitions reorders by divisions) and axis 1 (unique "
     "index, known divisions; 30 % with every input in one partition), join inner/outer, interleave_partitions, "
     "ignore_unknown_divisions, optionally (28 %) followed by the selection of the first/last result column; zero-row "
-    "inputs only as a rare stratum (~7 % of the axis-0 cases). "
+    "inputs only as a rare stratum (6-10 % of the concat cases). "
     "Non-trivial: both sides have >= 2 partitions, a duplicated key occurs on both sides (many-to-many) and some key is "
     "missing on one side."
 )
@@ -358,8 +358,8 @@ def concat_case(draw):
         if len(fs["columns"]) > 1 and draw(st.booleans()):
             fs["columns"] = fs["columns"][1:]
         fs["index"]["name"] = None
-        if axis == 0 and draw(st.sampled_from(range(12))) == 11:
-            # zero-row input: a separate, rare stratum (measured: ~6-8 % of the axis-0 cases; sig flag empty_input).  sampled_from,
+        if axis == 0 and draw(st.sampled_from(range(20))) == 19:
+            # zero-row input: a separate, rare stratum (measured: 6-10 % of all concat cases; sig flag empty_input).  sampled_from,
             # not integers(): Hypothesis draws the bounds of an integer range far more often than 1/n
             fs["nrows"] = 0
         if fs["nrows"] and draw(st.integers(0, 9)) < 4:
